@@ -195,8 +195,8 @@ Definition partial_of (cur : qitem) : resp := {| r_id := id_of cur; r_status := 
 Definition finish_fresh (c : cfg) (s : st) (cur : qitem) (started : bool) (status : N) (ka_resp : bool) : st :=
   if closed s then exit_loop s                                    (* write fails: ConnectionResetError -> reset -> break *)
   else
-    (* if the handler had already started another response on this writer and RETURNS a fresh one, the new head lands
-       behind the unfinished one (finish_response does not check writer.output_size; only the exception paths do) *)
+    (* `started` is always false since 2a9b996: every ending that would send a second response object after another
+       one was started raises ConnectionError before anything is written (parameter kept for the proofs' frame lemmas) *)
     let s0 := if started then push s (partial_of cur) else s in
     let s1 := push s0 {| r_id := id_of cur; r_status := status; r_done := true |} in
     payload_check c (set_ka s1 (ka_resp && negb (close_of cur))) cur.
@@ -213,7 +213,10 @@ Inductive outcome :=
 
 Definition on_done (c : cfg) (s : st) (cur : qitem) (started : bool) (o : outcome) : st :=
   match o with
-  | ORet keep status => finish_fresh c s cur started status keep
+  | ORet keep status =>
+      (* finish_response: another response object was started for this request (request._started_response) ->
+         ConnectionError -> start() breaks (2a9b996); the 500 that replaces a None return is such an object too *)
+      if started then exit_loop (push s (partial_of cur)) else finish_fresh c s cur false status keep
   | OHttp status =>
       (* _handle_request: output_size > 0 -> ConnectionError -> start() breaks, like handle_error *)
       if started then exit_loop (push s (partial_of cur)) else finish_fresh c s cur false status true
